@@ -17,6 +17,7 @@ import (
 	"errors"
 	"fmt"
 	"math/rand"
+	"net"
 	"sort"
 	"strings"
 	"testing"
@@ -24,12 +25,17 @@ import (
 	"github.com/btcsuite/btcd/address/v2"
 	"github.com/btcsuite/btcd/btcec/v2"
 	"github.com/btcsuite/btcd/btcec/v2/schnorr"
+	"github.com/btcsuite/btcd/btcutil/v2"
+	"github.com/btcsuite/btcd/chainhash/v2"
 	"github.com/btcsuite/btcd/txscript/v2"
 	"github.com/btcsuite/btcd/wire/v2"
 	"github.com/lightningnetwork/lnd/channeldb"
+	"github.com/lightningnetwork/lnd/chanstate"
 	"github.com/lightningnetwork/lnd/input"
+	"github.com/lightningnetwork/lnd/keychain"
 	"github.com/lightningnetwork/lnd/lnwallet/chainfee"
 	"github.com/lightningnetwork/lnd/lnwire"
+	"github.com/lightningnetwork/lnd/shachain"
 )
 
 // ---------------------------------------------------------------------------
@@ -101,6 +107,7 @@ type c0405Pair struct {
 	adds      [2]int
 	thaw      uint32
 	noAmt     bool
+	prm       c0405Params
 
 	// held[x][h]: the commitment transaction node x held as (a candidate
 	// for) its own commitment at height h (unsigned copy).
@@ -110,43 +117,247 @@ type c0405Pair struct {
 	closes [2]map[uint64]*LocalForceCloseSummary
 
 	// hooks
-	onLocalCommit func(x int, h uint64, s *LocalForceCloseSummary, fpk int64, err error)
+	onLocalCommit func(x int, h uint64, s *LocalForceCloseSummary, fpk int64, err error, tag string)
 	onRemoteView  func(x int)
 
 	stats map[string]int
 }
 
-func c0405NewPair(t *testing.T, kind c0405Kind, r *rand.Rand,
-	noAmt bool) (*c0405Pair, error) {
+// c0405Params are the channel parameters CreateTestChannels hard-codes.
+type c0405Params struct {
+	Capacity   btcutil.Amount
+	InitiatorA bool
+	OpenerPct  int64 // share of the capacity the initiator starts with
+	FeePerKw   chainfee.SatPerKWeight
+	Dust       [2]btcutil.Amount
+	Csv        [2]uint16
+	Reserve    [2]btcutil.Amount
+	Thaw       uint32
+}
 
+func c0405GenParams(r *rand.Rand, kind c0405Kind, small bool) c0405Params {
+	for {
+		var p c0405Params
+		p.Capacity = c0405Pick(r, btcutil.Amount(200_000), 1_000_000, 10_000_000, 1_000_000_000)
+		p.InitiatorA = r.Intn(2) == 0
+		p.OpenerPct = c0405Pick(r, int64(100), 100, 50, 90, 99)
+		p.FeePerKw = c0405Pick(r, chainfee.SatPerKWeight(253), 1000, 2500, 6000, 12500)
+		maxDust := btcutil.Amount(0)
+		for i := 0; i < 2; i++ {
+			p.Dust[i] = c0405Pick(r, btcutil.Amount(200), 354, 546, 1300, 3000)
+			p.Csv[i] = c0405Pick(r, uint16(1), 4, 5, 144, 2016)
+			if p.Dust[i] > maxDust {
+				maxDust = p.Dust[i]
+			}
+		}
+		if small {
+			// one side starts with nothing and the dust limits differ
+			p.OpenerPct = 100
+			if p.Dust[0] == p.Dust[1] {
+				continue
+			}
+		}
+		for i := 0; i < 2; i++ {
+			p.Reserve[i] = c0405Pick(r, p.Capacity/100, p.Capacity/1000, maxDust)
+			if p.Reserve[i] < maxDust {
+				p.Reserve[i] = maxDust
+			}
+		}
+		if kind.CT.HasLeaseExpiration() {
+			p.Thaw = uint32(600_000 + r.Intn(100_000))
+		}
+		fee := p.FeePerKw.FeeForWeight(CommitWeight(kind.CT))
+		var anchors btcutil.Amount
+		if kind.CT.HasAnchors() {
+			anchors = 2 * AnchorSize
+		}
+		o := 1
+		if p.InitiatorA {
+			o = 0
+		}
+		if p.Capacity*btcutil.Amount(p.OpenerPct)/100 < 3*(fee+anchors)+p.Reserve[o]+20_000 {
+			continue
+		}
+		return p
+	}
+}
+
+func c0405Keys(seed []byte) []*btcec.PrivateKey {
+	var keys []*btcec.PrivateKey
+	for i := 0; i < 5; i++ {
+		k := append([]byte{}, seed...)
+		k[0] ^= byte(i + 1)
+		priv, _ := btcec.PrivKeyFromBytes(k)
+		keys = append(keys, priv)
+	}
+	return keys
+}
+
+// c0405NewPair follows the recipe of the package's CreateTestChannels (same
+// keys, signer, sig pool, database, revocation windows) with the constants
+// turned into parameters: capacity, initial split, initiator, fee rate, dust
+// limits, CSV delays, reserves and - for leased channels - the thaw height,
+// which is stored with the channel.  The height-0 commitments pay the fee from
+// the initiator's balance, as real funding does.
+func c0405NewPair(t *testing.T, kind c0405Kind, r *rand.Rand,
+	noAmt, small bool) (*c0405Pair, error) {
+
+	prm := c0405GenParams(r, kind, small)
 	var mods []channeldb.OptionModifier
 	if noAmt {
 		mods = append(mods, channeldb.OptionNoRevLogAmtData(true))
 	}
-	a, b, err := CreateTestChannels(t, kind.CT, mods...)
+	prevOut := &wire.OutPoint{Hash: chainhash.Hash(testHdSeed), Index: r.Uint32()}
+	fundingTxIn := wire.NewTxIn(prevOut, nil, nil)
+	keys := [2][]*btcec.PrivateKey{c0405Keys(testWalletPrivKey), c0405Keys(bobsPrivKey)}
+	var cfgs [2]channeldb.ChannelConfig
+	for i := 0; i < 2; i++ {
+		cfgs[i] = channeldb.ChannelConfig{
+			ChannelStateBounds: channeldb.ChannelStateBounds{
+				MaxPendingAmount: lnwire.NewMSatFromSatoshis(prm.Capacity),
+				ChanReserve:      prm.Reserve[i],
+				MinHTLC:          0,
+				MaxAcceptedHtlcs: input.MaxHTLCNumber / 2,
+			},
+			CommitmentParams: channeldb.CommitmentParams{
+				DustLimit: prm.Dust[i], CsvDelay: prm.Csv[i],
+			},
+			MultiSigKey:         keychain.KeyDescriptor{PubKey: keys[i][0].PubKey()},
+			RevocationBasePoint: keychain.KeyDescriptor{PubKey: keys[i][1].PubKey()},
+			PaymentBasePoint:    keychain.KeyDescriptor{PubKey: keys[i][2].PubKey()},
+			DelayBasePoint:      keychain.KeyDescriptor{PubKey: keys[i][3].PubKey()},
+			HtlcBasePoint:       keychain.KeyDescriptor{PubKey: keys[i][4].PubKey()},
+		}
+	}
+	var (
+		producers [2]*shachain.RevocationProducer
+		points    [2]*btcec.PublicKey
+	)
+	for i := 0; i < 2; i++ {
+		root, err := chainhash.NewHash(keys[i][0].Serialize())
+		if err != nil {
+			return nil, err
+		}
+		producers[i] = shachain.NewRevocationProducer(*root)
+		first, err := producers[i].AtIndex(0)
+		if err != nil {
+			return nil, err
+		}
+		points[i] = input.ComputeCommitmentPoint(first[:])
+	}
+	commitFee := prm.FeePerKw.FeeForWeight(CommitWeight(kind.CT))
+	var anchorAmt btcutil.Amount
+	if kind.CT.HasAnchors() {
+		anchorAmt = 2 * AnchorSize
+	}
+	o := 1
+	if prm.InitiatorA {
+		o = 0
+	}
+	var bal [2]btcutil.Amount
+	openerTotal := prm.Capacity * btcutil.Amount(prm.OpenerPct) / 100
+	bal[o] = openerTotal - commitFee - anchorAmt
+	bal[1-o] = prm.Capacity - openerTotal
+
+	aliceTx, bobTx, err := CreateCommitmentTxns(bal[0], bal[1], &cfgs[0], &cfgs[1],
+		points[0], points[1], *fundingTxIn, kind.CT, prm.InitiatorA, prm.Thaw)
 	if err != nil {
 		return nil, err
 	}
+	txs := [2]*wire.MsgTx{aliceTx, bobTx}
+	shortChanID := lnwire.NewShortChanIDFromInt(uint64(r.Int63()))
+
 	p := &c0405Pair{
-		t: t, kind: kind, r: r, ch: [2]*LightningChannel{a, b},
+		t: t, kind: kind, r: r, prm: prm,
 		preimages: map[[32]byte][32]byte{},
-		noAmt:     noAmt,
-		stats:     map[string]int{},
+		noAmt:     noAmt, thaw: prm.Thaw,
+		stats: map[string]int{},
+	}
+	var states [2]*chanstate.OpenChannel
+	for i := 0; i < 2; i++ {
+		j := 1 - i
+		mk := func(tx *wire.MsgTx) channeldb.ChannelCommitment {
+			return channeldb.ChannelCommitment{
+				CommitHeight:  0,
+				LocalBalance:  lnwire.NewMSatFromSatoshis(bal[i]),
+				RemoteBalance: lnwire.NewMSatFromSatoshis(bal[j]),
+				CommitFee:     commitFee,
+				FeePerKw:      btcutil.Amount(prm.FeePerKw),
+				CommitTx:      tx,
+				CommitSig:     testSigBytes,
+			}
+		}
+		db := channeldb.OpenForTesting(t, t.TempDir(), mods...)
+		states[i] = &chanstate.OpenChannel{
+			LocalChanCfg:            cfgs[i],
+			RemoteChanCfg:           cfgs[j],
+			IdentityPub:             keys[i][0].PubKey(),
+			FundingOutpoint:         *prevOut,
+			ShortChannelID:          shortChanID,
+			ChanType:                kind.CT,
+			IsInitiator:             (i == 0) == prm.InitiatorA,
+			Capacity:                prm.Capacity,
+			RemoteCurrentRevocation: points[j],
+			RevocationProducer:      producers[i],
+			RevocationStore:         shachain.NewRevocationStore(),
+			LocalCommitment:         mk(txs[i]),
+			RemoteCommitment:        mk(txs[j]),
+			Db:                      db.ChannelStateDB(),
+			FundingTxn:              testTx,
+			ThawHeight:              prm.Thaw,
+		}
+	}
+	for i := 0; i < 2; i++ {
+		signer := input.NewMockSigner(keys[i], nil)
+		pool := NewSigPool(1, signer)
+		ch, err := NewLightningChannel(signer, states[i], pool)
+		if err != nil {
+			return nil, err
+		}
+		if err := pool.Start(); err != nil {
+			return nil, err
+		}
+		t.Cleanup(func() { _ = pool.Stop() })
+		p.ch[i] = ch
+	}
+	obf := createStateHintObfuscator(states[0])
+	for i := 0; i < 2; i++ {
+		if err := SetStateNumHint(txs[i], 0, obf); err != nil {
+			return nil, err
+		}
+	}
+	for i := 0; i < 2; i++ {
+		addr := &net.TCPAddr{IP: net.ParseIP("127.0.0.1"), Port: 18555 + i}
+		if err := p.ch[i].channelState.SyncPending(addr, 101); err != nil {
+			return nil, err
+		}
+	}
+	if err := initRevocationWindows(p.ch[0], p.ch[1]); err != nil {
+		return nil, err
 	}
 	for x := 0; x < 2; x++ {
 		p.held[x] = map[uint64]*wire.MsgTx{}
 		p.closes[x] = map[uint64]*LocalForceCloseSummary{}
 		p.held[x][0] = p.ch[x].channelState.LocalCommitment.CommitTx.Copy()
 	}
-	if kind.CT.HasLeaseExpiration() {
-		// The fixture leaves ThawHeight at zero; a real leased channel
-		// has an absolute expiry height.  The height-0 commitments
-		// were built with expiry 0 and are skipped by the harnesses.
-		p.thaw = uint32(600_000 + r.Intn(100_000))
-		a.channelState.ThawHeight = p.thaw
-		b.channelState.ThawHeight = p.thaw
-	}
 	return p, nil
+}
+
+// header fields describing the pair, shared by both harnesses
+func (p *c0405Pair) header() string {
+	a := p.ch[0].channelState
+	ini := "B"
+	if p.prm.InitiatorA {
+		ini = "A"
+	}
+	return fmt.Sprintf("type=%s anchors=%d taproot=%d lease=%d tweakless=%d zerofee=%d noamt=%d "+
+		"thaw=%d initiator=%s cap=%d openerpct=%d fpk0=%d csvA=%d csvB=%d dustA=%d dustB=%d",
+		p.kind.Name, c0405B2i(p.kind.CT.HasAnchors()), c0405B2i(p.kind.CT.IsTaproot()),
+		c0405B2i(p.kind.CT.HasLeaseExpiration()), c0405B2i(p.kind.CT.IsTweakless()),
+		c0405B2i(p.kind.CT.ZeroHtlcTxFee()), c0405B2i(p.noAmt), p.thaw, ini,
+		int64(p.prm.Capacity), p.prm.OpenerPct, int64(p.prm.FeePerKw),
+		a.LocalChanCfg.CsvDelay, a.RemoteChanCfg.CsvDelay,
+		int64(a.LocalChanCfg.DustLimit), int64(a.RemoteChanCfg.DustLimit))
 }
 
 func (p *c0405Pair) newHash() [32]byte {
@@ -264,15 +475,17 @@ func (p *c0405Pair) act(x int, kind string, a c0405Add, idx uint64,
 		rev, _, _, err := ch.RevokeCurrentCommitment()
 		if err == nil {
 			p.q[x] = append(p.q[x], c0405Msg{kind: "revoke", rev: rev})
-			p.snapshotLocal(x)
+			p.snapshotLocal(x, false)
 		}
 		return c0405ErrClass(err)
 	}
 	return "badop"
 }
 
-// snapshotLocal records what node x could broadcast right now.
-func (p *c0405Pair) snapshotLocal(x int) {
+// snapshotLocal records what node x could broadcast right now.  mid = the call
+// happens between ReceiveNewCommitment and RevokeCurrentCommitment (the local
+// chain tip is one ahead of the broadcastable commitment).
+func (p *c0405Pair) snapshotLocal(x int, mid bool) {
 	ch := p.ch[x]
 	h := ch.channelState.LocalCommitment.CommitHeight
 	var (
@@ -289,11 +502,14 @@ func (p *c0405Pair) snapshotLocal(x int) {
 	}()
 	// ForceClose only reads the state and sets this flag.
 	ch.isClosed = false
-	if err == nil {
+	tag := "mid"
+	if mid {
+		tag = "midrecv"
+	} else if err == nil {
 		p.closes[x][h] = s
 	}
 	if p.onLocalCommit != nil {
-		p.onLocalCommit(x, h, s, int64(ch.channelState.LocalCommitment.FeePerKw), err)
+		p.onLocalCommit(x, h, s, int64(ch.channelState.LocalCommitment.FeePerKw), err, tag)
 	}
 }
 
@@ -324,6 +540,9 @@ func (p *c0405Pair) deliver(d int) (kind, res string) {
 		if err == nil {
 			tip := ch.commitChains.Local.tip()
 			p.held[y][tip.height] = tip.txn.Copy()
+			if ch.channelState.LocalCommitment.CommitHeight > 0 {
+				p.snapshotLocal(y, true)
+			}
 		}
 	case "revoke":
 		_, _, err = ch.ReceiveRevocation(m.rev)
@@ -371,6 +590,38 @@ func (p *c0405Pair) pickAmount(x int) lnwire.MilliSatoshi {
 	dustX := ch.channelState.LocalChanCfg.DustLimit
 	dustY := ch.channelState.RemoteChanCfg.DustLimit
 	deltas := []int64{-1000, -1, 0, 1, 999, 1000, 1001, 2000}
+	// the receiver's settled balance between the two dust limits: its output
+	// exists on one commitment and is trimmed on the other
+	dl, dh := dustX, dustY
+	if dl > dh {
+		dl, dh = dh, dl
+	}
+	peerBal := ch.channelState.LocalCommitment.RemoteBalance.ToSatoshis()
+	if dl < dh && peerBal < dh && r.Intn(3) == 0 {
+		target := dl + btcutil.Amount(r.Int63n(int64(dh-dl)))
+		if r.Intn(4) == 0 {
+			target = c0405Pick(r, dl, dh-1, dl-1, dh)
+		}
+		if target > peerBal {
+			return lnwire.NewMSatFromSatoshis(target - peerBal)
+		}
+	}
+	// an amount whose trimmed status differs between two plausible fee rates
+	if r.Intn(6) == 0 {
+		f1 := c0405Pick(r, chainfee.SatPerKWeight(253), 1000, 2500, 6000, 12500, fpk*2, fpk/2+1)
+		f2 := fpk
+		a := dustY + HtlcSuccessFee(ct, f1)
+		b := dustY + HtlcSuccessFee(ct, f2)
+		if r.Intn(2) == 0 {
+			a, b = dustX+HtlcTimeoutFee(ct, f1), dustX+HtlcTimeoutFee(ct, f2)
+		}
+		if a > b {
+			a, b = b, a
+		}
+		if b > a {
+			return lnwire.NewMSatFromSatoshis(a + btcutil.Amount(r.Int63n(int64(b-a))))
+		}
+	}
 	switch r.Intn(10) {
 	case 0, 1, 2, 3:
 		th := c0405Pick(r,
@@ -387,7 +638,7 @@ func (p *c0405Pair) pickAmount(x int) lnwire.MilliSatoshi {
 	case 5:
 		return lnwire.MilliSatoshi(1_000_000 * int64(1+r.Intn(500)))
 	default:
-		return lnwire.MilliSatoshi(2_000_000 + r.Int63n(200_000_000))
+		return lnwire.MilliSatoshi(2_000_000 + r.Int63n(int64(p.prm.Capacity)*1000/20))
 	}
 }
 
@@ -451,6 +702,21 @@ func (p *c0405Pair) step(maxAdds int) bool {
 				cur := ch.commitChains.Local.tip().feePerKw
 				f := c0405Pick(r, cur+1, cur*2, cur/2+1, 253, 1000, 2500,
 					chainfee.SatPerKWeight(253+r.Intn(20000)))
+				// a rate at which some live HTLC changes between trimmed and untrimmed
+				if hs := ch.channelState.LocalCommitment.Htlcs; len(hs) > 0 && r.Intn(2) == 0 {
+					ht := hs[r.Intn(len(hs))]
+					dust := c0405Pick(r, ch.channelState.LocalChanCfg.DustLimit,
+						ch.channelState.RemoteChanCfg.DustLimit)
+					w := c0405Pick(r, int64(input.HtlcTimeoutWeight), int64(input.HtlcSuccessWeight),
+						int64(input.HtlcTimeoutWeightConfirmed), int64(input.HtlcSuccessWeightConfirmed))
+					if amt := ht.Amt.ToSatoshis(); amt > dust {
+						f0 := int64(amt-dust) * 1000 / w
+						f0 += int64(r.Intn(5)) - 2
+						if f0 >= 253 && f0 < 200_000 {
+							f = chainfee.SatPerKWeight(f0)
+						}
+					}
+				}
 				if p.act(x, "fee", c0405Add{}, 0, f) == "ok" {
 					p.stats["fee_ok"]++
 				}
@@ -489,6 +755,52 @@ func (p *c0405Pair) step(maxAdds int) bool {
 		k -= c.w
 	}
 	return true
+}
+
+// smallBalancePrefix steers the history into the corner in which one side's
+// settled balance lies between the two dust limits (its output exists on one
+// commitment and is trimmed on the other), then moves on so that those states
+// get revoked.
+func (p *c0405Pair) smallBalancePrefix() {
+	for x := 0; x < 2; x++ {
+		ch := p.ch[x]
+		dl := ch.channelState.LocalChanCfg.DustLimit
+		dh := ch.channelState.RemoteChanCfg.DustLimit
+		if dl > dh {
+			dl, dh = dh, dl
+		}
+		peerBal := ch.channelState.LocalCommitment.RemoteBalance.ToSatoshis()
+		ownBal := ch.channelState.LocalCommitment.LocalBalance.ToSatoshis()
+		if dl == dh || peerBal >= dh || ownBal < 50_000 {
+			continue
+		}
+		target := dl + btcutil.Amount(p.r.Int63n(int64(dh-dl)))
+		if target <= peerBal {
+			continue
+		}
+		a := c0405Add{amt: lnwire.NewMSatFromSatoshis(target - peerBal), expiry: 700_144,
+			hash: p.newHash()}
+		if p.act(x, "add", a, 0, 0) != "ok" {
+			continue
+		}
+		p.adds[x]++
+		p.drain()
+		for _, idx := range p.settleable(1 - x) {
+			p.act(1-x, "settle", c0405Add{}, idx, 0)
+		}
+		p.drain()
+		// two more transitions revoke the states carrying the small balance
+		for i := 0; i < 2 && !p.dead; i++ {
+			b := c0405Add{amt: lnwire.MilliSatoshi(20_000_000 + p.r.Int63n(5_000_000)),
+				expiry: 700_144, hash: p.newHash()}
+			if p.act(x, "add", b, 0, 0) == "ok" {
+				p.adds[x]++
+			}
+			p.drain()
+		}
+		p.stats["small_balance_prefix"]++
+		return
+	}
 }
 
 // drain completes the dance until nothing is in flight.
